@@ -1,6 +1,7 @@
 package checks
 
 import (
+	"fmt"
 	"math/rand"
 	"strings"
 
@@ -41,6 +42,55 @@ func C02(c *Ctx) {
 	}
 	c.runKnownF02()
 	c.ModelCheck(cfg)
+	c.c02RawBlocks()
+}
+
+// c02RawBlocks: code blocks with byte-identical text in different rules whose labels are bound in a
+// different order (the monitor's own blocks always differ by their id). Each must receive its own
+// labels by name.
+func (c *Ctx) c02RawBlocks() {
+	const body = `{ return "k=" + flat(k) + " v=" + flat(v) + " @" + fmt.Sprint(c.pos.offset) + " " + string(c.text), nil }`
+	raw := "{\npackage %PKG%\n\nimport \"fmt\"\n\nfunc flat(v any) string {\n\tswitch x := v.(type) {\n\tcase []byte:\n\t\treturn string(x)\n\tcase []any:\n\t\ts := \"\"\n\t\tfor _, e := range x {\n\t\t\ts += flat(e)\n\t\t}\n\t\treturn s\n\tcase string:\n\t\treturn x\n\t}\n\treturn fmt.Sprint(v)\n}\n}\n\n" +
+		"S <- ( A / B / D )* !.\n" +
+		"A <- k:[a-c]+ '=' v:[0-9]+ ';' " + body + "\n" +
+		"B <- v:[0-9]+ '>' k:[a-c]+ ';' " + body + "\n" +
+		"D <- '(' v:[0-9]+ ')' k:( [a-c] )? ';' " + body + "\n"
+	g := &gast.Grammar{Raw: raw, Rules: []*gast.Rule{{Name: "S", Expr: gast.Star(gast.Dot())}}}
+	g.Finalize()
+	bt := c.BuildUnits([]*gast.Grammar{g}, [][]string{{}, {"-optimize-parser"}, {"-optimize-grammar"}}, false, nil)
+	defer bt.Close()
+	want := map[string]string{
+		"ab=12;":        `[s"k=ab v=12 @0 ab=12;"]`,
+		"34>c;":         `[s"k=c v=34 @0 34>c;"]`,
+		"ab=12;34>c;":   `[s"k=ab v=12 @0 ab=12;",s"k=c v=34 @6 34>c;"]`,
+		"(7)b;1>a;c=2;": `[s"k=b v=7 @0 (7)b;",s"k=a v=1 @5 1>a;",s"k=c v=2 @9 c=2;"]`,
+	}
+	for _, u := range bt.Units {
+		if !u.OK {
+			c.Report(&Violation{Class: "C02/raw-blocks-build", Summary: fmt.Sprintf("a grammar with byte-identical code blocks in three rules does not build with flags [%s]: %s", u.FlagID, u.Fail), Grammar: u.Text, Flags: u.Flags})
+			continue
+		}
+		var cs []*mon.Case
+		for in := range want {
+			cs = append(cs, &mon.Case{ID: u.Pkg + "/" + in, Pkg: u.Pkg, Input: []byte(in)})
+		}
+		res := bt.Run(cs, runOptsDefault)
+		for in, w := range want {
+			r := res[u.Pkg+"/"+in]
+			c.Eval(1)
+			if r == nil {
+				c.Inconclusive("no_result")
+				continue
+			}
+			// the value is [[results...], nil] for ( ... )* !.
+			if !strings.Contains(r.Val, w[1:len(w)-1]) || !r.ErrNil {
+				c.Report(&Violation{Class: "C02/identical-blocks", Summary: fmt.Sprintf("code blocks with identical text but labels bound in another order: on input %q the parser (flags [%s]) returns %s (err %q), want the elements %s", in, u.FlagID, trunc(r.Val), trunc(r.ErrStr), w),
+					Grammar: u.Text, Flags: u.Flags, Input: []byte(in)})
+			} else {
+				c.Distinct("raw/" + u.FlagID + in)
+			}
+		}
+	}
 }
 
 // scopeStrata: for every construct that opens a label scope, a grammar in which the scope re-uses
@@ -87,6 +137,12 @@ func c02Strata() []*gast.Grammar {
 		// action inside an alternative that is abandoned later
 		mk(r("S", gast.C(gast.S(gast.A(gast.Lab("a", gast.Plus(gast.Cl(gast.Chars("a\n")))), 1, mon.Spec{}), gast.L("x")),
 			gast.A(gast.Lab("b", gast.Star(gast.Dot())), 2, mon.Spec{})))),
+		// a block written directly in a recovery expression, using a label bound in the guarded sequence
+		// by the sequence that also holds the throw
+		mk(r("S", gast.Star(gast.C(gast.Ref("Good"), gast.Ref("Bad"), gast.A(gast.Dot(), 9, mon.Spec{})))),
+			r("Good", gast.A(gast.S(gast.Lab("a", gast.Ref("W")), gast.L("="), gast.Lab("b", gast.Plus(gast.Cl(gast.Chars("01")))), gast.L(";")), 1, mon.Spec{})),
+			r("Bad", gast.Rec(gast.S(gast.Lab("a", gast.Ref("W")), gast.L("="), gast.Thr("L1")), gast.A(gast.S(gast.Lab("d", gast.Star(gast.Cl(&gast.ClassSpec{Chars: []rune(";"), Inverted: true}))), gast.L(";")), 2, mon.Spec{}), "L1")),
+			r("W", gast.A(gast.Plus(gast.Cl(gast.Chars("ab"))), 3, mon.Spec{R: 2}))),
 		// an input that starts with a byte order mark: it is a rune like any other for line/col
 		mk(r("S", gast.S(gast.Opt(gast.L("\ufeff")), gast.Star(gast.C(gast.A(gast.Plus(gast.Cl(gast.Chars("ab"))), 1, mon.Spec{}), gast.A(gast.L("\n"), 2, mon.Spec{}), gast.A(gast.L("\ufeff"), 3, mon.Spec{}))), gast.AndC(4, mon.Spec{}), gast.Star(gast.Dot()))),
 			r("T", gast.A(gast.S(gast.Dot(), gast.Lab("a", gast.Star(gast.Cl(gast.Chars("ab\ufeff"))))), 5, mon.Spec{}))),
@@ -543,6 +599,14 @@ func c14Strata() []*gast.Grammar {
 	r := func(n string, e *gast.Expr) *gast.Rule { return &gast.Rule{Name: n, Expr: e} }
 	act := func(e *gast.Expr, id int) *gast.Expr { return gast.A(e, id, mon.Spec{}) }
 	return []*gast.Grammar{
+		// sibling recovery operators at one depth with different label sets; the later one throws a label
+		// that only the earlier sibling and an enclosing catch-all list
+		mk(r("Doc", gast.S(gast.Star(gast.Ref("Item")), gast.Star(gast.Dot()))), r("Item", gast.Rec(gast.C(gast.Ref("NumItem"), gast.Ref("NameItem")), act(gast.Star(gast.Cl(&gast.ClassSpec{Chars: []rune(";"), Inverted: true})), 1), "L1", "L2")),
+			r("NumItem", gast.Rec(act(gast.S(gast.L("#"), gast.Lab("n", gast.C(gast.Ref("Num"), gast.Thr("L1"))), gast.L(";")), 2), act(gast.Star(gast.Cl(&gast.ClassSpec{Chars: []rune(";"), Inverted: true})), 3), "L1")),
+			r("NameItem", gast.Rec(act(gast.S(gast.L("@"), gast.Lab("n", gast.C(gast.Ref("Name"), gast.S(gast.AndE(gast.Cl(gast.Chars("01"))), gast.Thr("L1")), gast.Thr("L2"))), gast.L(";")), 4), act(gast.Star(gast.Cl(&gast.ClassSpec{Chars: []rune(";"), Inverted: true})), 5), "L2")),
+			r("Num", act(gast.S(gast.Plus(gast.Cl(gast.Chars("01"))), gast.NotE(gast.Cl(gast.Chars("ab")))), 6)), r("Name", act(gast.S(gast.Plus(gast.Cl(gast.Chars("ab"))), gast.NotE(gast.Cl(gast.Chars("01")))), 7))),
+		mk(r("Start", gast.S(gast.Ref("A"), gast.Ref("B"), gast.NotE(gast.Dot()))), r("A", gast.Rec(gast.C(gast.L("a"), gast.Thr("L1")), act(gast.L("x"), 1), "L1")),
+			r("B", gast.Rec(gast.C(gast.L("b"), gast.S(gast.L("c"), gast.Thr("L2")), gast.Thr("L1")), act(gast.L("y"), 2), "L2")), r("Outer", gast.S(gast.Rec(gast.S(gast.Ref("A"), gast.Ref("B")), act(gast.L("z"), 3), "L1"), gast.NotE(gast.Dot())))),
 		// a recovery expression that can match empty, and a backtracking path that throws the same label
 		// again at the same position
 		mk(r("S", gast.C(gast.S(gast.L("A:"), gast.Lab("v", gast.Ref("CaseA")), gast.NotE(gast.Dot())), gast.S(gast.L("B:"), gast.Lab("v", gast.Ref("CaseB")), gast.NotE(gast.Dot())), gast.Star(gast.Dot()))),
